@@ -676,6 +676,15 @@ func phaseTxClear(c *collector, rs int64, scale int) {
 		readds: 3, delayWeight: 24})
 }
 
+// AddTx and Clear only (no removal, no eviction, limits not hit): both are critical sections of mutTxOperation over BOTH indexes, so at
+// every instant with nothing in flight the set reachable by hash is the set listed under the senders (the counters are not compared:
+// C14_quiescent_counters_with_clear_refuted is about them, not about the sets)
+func phaseTxAddClear(c *collector, rs int64, scale int) {
+	rng := rand.New(rand.NewSource(rs ^ 0x77))
+	runTxPlan(c, rs, scale, txPlan{name: "txcache-add-clear", cfg: baseCfg(rng), nSenders: 6, perSender: 24, adders: 8, clearers: 3, selectors: 1, readers: 2,
+		readds: 6, delayWeight: 24, indexesAgree: true})
+}
+
 // the logging / diagnosis paths (TRACE level into a discarding observer)
 func phaseTxDiagnose(c *collector, rs int64, scale int) {
 	rng := rand.New(rand.NewSource(rs ^ 0x66))
